@@ -380,7 +380,18 @@ def live_part(run, live):
     for i, m in enumerate(subsets):
         script.append("rt %s %d" % (G.BS(False, m).text(), 2 if i % 7 else 0))
     nontrivial = G.BS(False, sum(1 << c for c in cpus[1::2]) or allowed.fin)
-    script += ["destroy", "rawbind " + nontrivial.text(), "affinity", "loadcheck 0", "loadcheck 2"]
+    # load in a worker thread bound to ONE PU while the main thread keeps the wide binding: thread binding and
+    # process binding differ, so a backend that saves / restores the wrong one is visible
+    script += ["destroy"]
+    nthread = 0
+    for comp in (None, "x86", "linux"):
+        script.append("env HWLOC_COMPONENTS" + (" " + comp if comp else ""))
+        for fl in (0, 2, 0x12, 0x22, 0x40):
+            for c in cpus[:16]:
+                script.append("threadload %d %d" % (c, fl))
+                nthread += 1
+    script += ["env HWLOC_COMPONENTS"]
+    script += ["rawbind " + nontrivial.text(), "affinity", "loadcheck 0", "loadcheck 2"]
     script += ["env HWLOC_COMPONENTS x86", "loadcheck 0", "env HWLOC_COMPONENTS x86,stop", "loadcheck 0", "env HWLOC_COMPONENTS -x86", "loadcheck 0",
                "env HWLOC_COMPONENTS", "loadcheck 16", "affinity", "rawbind " + orig.text(), "affinity"]
     rc, out, err = C.sh([live], input=("\n".join(script) + "\n").encode(), env=env, timeout=600)
@@ -388,7 +399,7 @@ def live_part(run, live):
     if rc != 0:
         run.violation("live-crash", "live harness failed rc=%d" % rc, "kind: live\nscript:\n%s\nend-script\n%s" % ("\n".join(script[:50]), err.decode(errors="replace")[-2000:]))
         return
-    nrt = nload = 0
+    nrt = nload = nthr = 0
     x86_seen = False
     affs = []
     for l in ol:
@@ -410,14 +421,76 @@ def live_part(run, live):
             run.count(l, nontrivial=True, kind="live:load", sample={"live": l})
             if kv["before"] != kv["after"] or kv["rc"] != "0":
                 run.violation("live-load-changes-binding", "hwloc_topology_load changed the caller's affinity: " + l, "kind: live\n" + l + "\n")
+        elif l.startswith("M "):
+            kv = dict(f.split("=", 1) for f in l.split()[1:])
+            nthr += 1
+            if "x86" in kv.get("backends", ""):
+                x86_seen = True
+            run.count(l, nontrivial=True, kind="live:threadload", sample={"live": l})
+            want = G.BS(False, 1 << int(kv["cpu"])).text()
+            if kv["bind_rc"] != "0" or kv["rc"] != "0" or kv["before"] != want:
+                run.violation("live-threadload-setup", "worker could not bind / load: " + l, "kind: live\n" + l + "\n", no_input=True)
+            elif kv["after"] != kv["before"]:
+                run.violation("live-load-changes-thread-binding", "hwloc_topology_load (flags %s) in a thread bound to PU %s returned with the thread bound to %s" % (kv["flags"], kv["cpu"], kv["after"]),
+                              "kind: live\nscript:\nthreadload %s %s\nend-script\n%s\n" % (kv["cpu"], kv["flags"], l))
+            elif kv["main_after"] != kv["main_before"]:
+                run.violation("live-load-changes-other-thread", "hwloc_topology_load in a worker changed the main thread's affinity: " + l, "kind: live\n" + l + "\n")
         elif l.startswith("A raw="):
             affs.append(l.split("=", 1)[1])
     if len(affs) < 4 or affs[-1] != orig.text() or affs[1] != nontrivial.text() or affs[2] != nontrivial.text():
         run.violation("live-restore", "affinity sequence %r (original %s, test binding %s)" % (affs, orig.text(), nontrivial.text()), "kind: live\n" + "\n".join(ol[-12:]))
     run.cov["live"] = {"observed_not_proved": True, "allowed_cpus": n, "exhaustive_subsets": exhaustive, "round_trips": nrt,
-                       "load_checks": nload, "x86_backend_exercised": x86_seen, "original_affinity_restored": bool(affs) and affs[-1] == orig.text()}
-    if nrt != len(subsets) or nload < 6:
+                       "load_checks": nload, "threaded_load_checks": nthr, "x86_backend_exercised": x86_seen, "original_affinity_restored": bool(affs) and affs[-1] == orig.text()}
+    if nrt != len(subsets) or nload < 6 or nthr != nthread:
         run.violation("live-incomplete", "live part produced %d round trips (wanted %d) and %d load checks" % (nrt, len(subsets), nload), "kind: live\n" + "\n".join(ol[-8:]), no_input=True)
+
+
+def loadtrace_part(run, exe, drv):
+    """mode os for a whole native load: every affinity call the load issues is recorded and answered by the
+    scripted kernel, which reports DIFFERENT masks for the calling thread (pid 0) and for per-tid queries (the
+    process view).  Clause: the LAST sched_setaffinity of the load carries the mask the FIRST thread-level
+    sched_getaffinity returned; the sequence equals the model's (x86_look)."""
+    rng = run.rng
+    cases = []
+    for fl in (0x12, 0x12, 0x12, 0, 2, 0x22, 0x40, 0x52):
+        k = rng.randrange(16)
+        thread = 1 << k
+        if rng.random() < 0.3:
+            thread |= 1 << rng.randrange(16)
+        proc = thread | rng.getrandbits(16) | (1 << rng.randrange(16))
+        cases.append((fl, G.BS(False, thread), G.BS(False, proc)))
+    cs = []
+    for fl, th, pr in cases:
+        cs += ["os aff " + th.text(), "os affproc " + pr.text(), "os loadtrace %d" % fl]
+    rc, out, err = C.sh([exe], input=("\n".join(cs) + "\n").encode(), env=C.run_env(), timeout=120)
+    lts = [l for l in out.decode().split("\n") if l.startswith("LT ")]
+    if rc != 0 or len(lts) != len(cases):
+        run.violation("loadtrace-crash", "interposed load failed rc=%d" % rc, "kind: input\nscript:\n%s\nend-script\n%s" % ("\n".join(cs), err.decode(errors="replace")[-2000:]))
+        return
+    ms = []
+    for (fl, th, pr), lt in zip(cases, lts):
+        nb = re.search(r"nbprocs=(-?\d+)", lt).group(1)
+        ms += ["nbprocs " + nb, "os aff " + th.text(), "os affproc " + pr.text(), "os loadtrace %d" % fl]
+    rc2, out2, err2 = C.sh([drv], input=("\n".join(ms) + "\n").encode(), timeout=60)
+    lxs = [l for l in out2.decode().split("\n") if l.startswith("LX")]
+    nset = 0
+    for (fl, th, pr), lt, lx in zip(cases, lts, lxs):
+        evs = EV_RE.findall(lt.split("|", 1)[1])
+        sets = [a.split(",")[1] for n, a in evs if n == "setaffinity"]
+        gets0 = [i for i, (n, a) in enumerate(evs) if n == "getaffinity" and a == "0"]
+        replay = "kind: input\nscript:\nos aff %s\nos affproc %s\nos loadtrace %d\nend-script\nimpl:  %s\nmodel: %s\n" % (th.text(), pr.text(), fl, lt, lx)
+        run.count(lt, nontrivial=bool(sets), kind="os:loadtrace", sample={"load": lt[:300], "model": lx[:300]})
+        if sets:
+            nset += 1
+            if not gets0 or sets[-1] != th.text():
+                run.violation("load-restores-wrong-binding", "flags %d: the last sched_setaffinity of hwloc_topology_load carries %s, the thread-level sched_getaffinity returned %s (process view %s)" % (fl, sets[-1], th.text(), pr.text()), replay)
+                continue
+        msets = re.findall(r"setaffinity\(0,([^)]*)\)", lx)
+        if sets != msets:
+            run.violation("correspondence:os:loadtrace", "affinity calls of the load differ from the x86 model (flags %d): impl=%r model=%r" % (fl, sets[-3:], msets[-3:]), replay, no_input=True)
+        else:
+            run.cov["traces_validated_against_impl"] += 1
+    run.cov["loadtrace"] = {"loads": len(cases), "loads_that_rebound": nset}
 
 
 def replay_script(path):
@@ -443,6 +516,7 @@ def check(run, replay=None):
     for i, (s, expect) in enumerate(build_scripts(run, exe)):
         ev.evaluate(s, "gen%d" % i, expect_this=expect)
     run.cov["clause_population"] = ev.stats
+    loadtrace_part(run, exe, drv)
     live_part(run, live)
     return run.finish(proof, trusted=TRUSTED)
 
@@ -450,5 +524,5 @@ def check(run, replay=None):
 TRUSTED = [
     "interposition: the harness executable defines sched_setaffinity, sched_getaffinity, sched_getcpu and syscall() (mbind, set_mempolicy, get_mempolicy, migrate_pages, move_pages); these are all the binding-related imports of topology-linux.o (checked with nm); /proc/<pid>/task, /proc/<tid>/stat and mmap are not interposed (model: K_tasklist, K_lastcpu, K_mmap answered as a single-threaded process)",
     "recording hooks: struct hwloc_binding_hooks layout from include/private/private.h of the current tree",
-    "LIVE PART IS OBSERVED, NOT PROVED: round trip set->get->last_cpu_location over subsets of the allowed CPUs and affinity before/after hwloc_topology_load (default, IS_THISSYSTEM, HWLOC_COMPONENTS=x86 / x86,stop / -x86, RESTRICT_TO_CPUBINDING) on this sandbox's kernel; x86_restores_binding is proved only against an idealised affinity model",
+    "LIVE PART IS OBSERVED, NOT PROVED: round trip set->get->last_cpu_location over subsets of the allowed CPUs and affinity before/after hwloc_topology_load (default, IS_THISSYSTEM, HWLOC_COMPONENTS=x86 / x86,stop / -x86, RESTRICT_TO_CPUBINDING) and, in a worker thread bound to one PU while the main thread keeps the wide binding, for every allowed PU x flags {0, IS_THISSYSTEM, 0x12, 0x22, DONT_CHANGE_BINDING} x HWLOC_COMPONENTS {default, x86, linux}: the worker's and the main thread's sched_getaffinity before/after, on this sandbox's kernel; x86_restores_binding is proved only against an idealised affinity model",
 ]
